@@ -4,7 +4,8 @@ From Coq Require Import List ZArith NArith Bool Sorting.Permutation.
 From Pcfg Require Import Str Multiword Detect Segment SegCorr DetectProofsStr DetectProofsDrive DetectProofsSimple
      DetectProofsMw DetectProofsSeg DetectProofsWeb DetectProofsKbd DetectProofsCount DetectProofsAdj DetectProofsPipe DetectProofsInst.
 From Pcfg Require Import DetectRt DetectGenProofs DetectGenInst.
-From PcfgGen Require Import Consts_gen Unicode_gen Detect_gen.
+From Pcfg Require Import DetectRt2 DetectGenProofsMw DetectGenInst2.
+From PcfgGen Require Import Consts_gen Unicode_gen Detect_gen DetectMw_gen.
 Import ListNotations.
 Open Scope Z_scope.
 
@@ -324,6 +325,49 @@ Example C05_source_demo_detectors :
           Some [[112; 97; 115; 115]%N], Some [[85; 76; 76; 76]%N]).
 Proof. exact demo_py_detectors. Qed.
 
+(* ---- third tie to the source: the remaining detectors (harness/translate_detect2.py ->
+   gen/DetectMw_gen.v, gen/DetectEmail_gen.v, gen/DetectWeb_gen.v, gen/DetectKbd_gen.v).
+
+   The multi-word detector.  MultiWordDetector keeps its words in a trie of nested dicts
+   (DetectRt2.trie; the translated methods are functions of it), the model in the finite
+   map word |-> count it represents (mw_rep t m: every word has the same "count" entry in
+   both).  For every oracle isalpha / lower_c and all constructor arguments: *)
+Theorem C05_source_mw_get_count_is_model : forall lower_c t m w, mw_rep t m ->
+  py_mw_get_count lower_c t w = Some (mw_count lower_c m w).
+Proof. exact py_mw_get_count_eq. Qed.
+(* for EVERY fuel: the translated recursion and the model's run out of it together *)
+Theorem C05_source_mw_identify_multi_is_model : forall lower_c thr minl t m, mw_rep t m -> forall fuel s,
+  py_mw_identify_multi lower_c thr minl fuel t s = mw_identify lower_c thr minl fuel m s.
+Proof. exact py_mw_identify_multi_eq. Qed.
+Theorem C05_source_mw_parse_is_model : forall lower_c thr minl maxl t m, mw_rep t m -> forall s,
+  py_mw_parse lower_c thr minl maxl t s = mw_parse lower_c thr minl maxl m s.
+Proof. exact py_mw_parse_eq. Qed.
+(* train never raises and keeps the representation *)
+Theorem C05_source_mw_train_is_model : forall isalpha lower_c thr minl maxl t m st pw, mw_rep t m ->
+  exists t', py_mw_train isalpha lower_c thr minl maxl t pw st = Some t' /\
+             mw_rep t' (mw_train isalpha lower_c thr minl maxl m st pw).
+Proof. exact py_mw_train_eq. Qed.
+Theorem C05_source_mw_empty_is_model : mw_rep t_empty [].
+Proof. exact rep_empty. Qed.
+(* hence for every training history, on the instance the correspondence runs *)
+Theorem C05_source_mw_history_is_model : forall h t m, mw_rep t m ->
+  exists t', py_mw_history t h = Some t' /\ mw_rep t' (mw_history m h).
+Proof. exact py_mw_history_is_model. Qed.
+(* C05_sound_multiword for the translated detector, stated with the translated
+   _get_count only, for EVERY state reachable from the constructor by calls of train *)
+Theorem C05_sound_multiword_source : forall t s b ws, mw_reachable t -> py_mwparse_c t s = Some (b, ws) ->
+  ws = [s] \/ (concat ws = s /\ Forall (py_base_word t) ws /\ (2 <= length ws)%nat /\
+               exists v, py_mwcount_c t s = Some v /\ v < c_threshold).
+Proof. exact py_mwparse_c_sound. Qed.
+Theorem C05_source_mw_parse_never_raises : forall t s, mw_reachable t -> py_mwparse_c t s <> None.
+Proof. exact py_mwparse_c_never_raises. Qed.
+Example C05_source_mw_demo :
+  exists t, py_mw_history t_empty h_demo = Some t /\
+    py_mwcount_c t [112; 97; 115; 115]%N = Some (c_threshold + 1) /\
+    py_mwparse_c t [112; 97; 115; 115; 119; 111; 114; 100]%N = Some (true, [[112; 97; 115; 115]; [119; 111; 114; 100]]%N) /\
+    py_mwparse_c t [112; 97; 115; 115; 119; 111; 114; 107]%N = Some (false, [[112; 97; 115; 115; 119; 111; 114; 107]]%N).
+Proof. exact demo_py_mw. Qed.
+
 Print Assumptions split_driver_tiling.
 Print Assumptions C05_tiling.
 Print Assumptions C05_counters.
@@ -335,3 +379,5 @@ Print Assumptions C05_source_detect_alpha_is_model.
 Print Assumptions C05_tiling_source.
 Print Assumptions C05_counters_source.
 Print Assumptions C05_source_year_detection_total.
+Print Assumptions C05_source_mw_train_is_model.
+Print Assumptions C05_sound_multiword_source.
